@@ -84,10 +84,14 @@ func namedFamily(r *c.Rng, n int) mapFamily {
 	return mapFamily{a.spell(r, mode), b.spell(r, mode), a.vals, b.vals}
 }
 
-// someFamily: the abstract family or a named one, evenly.
+// someFamily: the abstract family, a named one, or one whose names / values
+// carry text special to a formatter or to the dump (special.go), evenly.
 func someFamily(r *c.Rng, n int) mapFamily {
-	if r.Chance(1, 2) {
+	switch r.Intn(3) {
+	case 0:
 		return abstractFamily
+	case 1:
+		return fmtFamily(r)
 	}
 	return namedFamily(r, n)
 }
@@ -167,6 +171,7 @@ func specialEntry(r *c.Rng, mode int) (string, string) {
 }
 
 func countNames(o *c.Out, side string, acts []Act) {
+	countFmt(o, side, acts)
 	special, mixed := false, false
 	for _, a := range acts {
 		for k := range a.Headers {
